@@ -42,6 +42,37 @@ Utf8Valid(v) ==
               /\ Utf8Valid(SubSeq(v, 4, Len(v)))
        ELSE FALSE
 
+\* ---- decimal integers of any length (TLC's own integers are 32 bit): sign and magnitude ----
+\* The numeric comparisons are comparisons of the integers the two texts denote, however long the
+\* texts are: "99999999999999999999" is greater than 1048576. A text that is not [+-]digits denotes 0.
+RECURSIVE StripZeros(_)
+StripZeros(d) == IF d # << >> /\ Head(d) = 48 THEN StripZeros(Tail(d)) ELSE d
+DecMag(v) == IF ~IsInt(v) THEN << >> ELSE StripZeros(IF v[1] \in {43, 45} THEN Tail(v) ELSE v)
+DecNeg(v) == IsInt(v) /\ v[1] = 45 /\ DecMag(v) # << >>
+RECURSIVE LexLess(_, _)
+LexLess(x, y) == x # << >> /\ (Head(x) < Head(y) \/ (Head(x) = Head(y) /\ LexLess(Tail(x), Tail(y))))      \* equal lengths
+MagLess(x, y) == Len(x) < Len(y) \/ (Len(x) = Len(y) /\ LexLess(x, y))
+DecLess(v, w) ==
+  IF DecNeg(v) /\ ~DecNeg(w) THEN TRUE
+  ELSE IF ~DecNeg(v) /\ DecNeg(w) THEN FALSE
+  ELSE IF DecNeg(v) THEN MagLess(DecMag(w), DecMag(v))
+  ELSE MagLess(DecMag(v), DecMag(w))
+DecEq(v, w) == DecNeg(v) = DecNeg(w) /\ DecMag(v) = DecMag(w)
+MaxMag64 == <<57,50,50,51,51,55,50,48,51,54,56,53,52,55,55,53,56,48,55>>     \* 9223372036854775807
+MinMag64 == <<57,50,50,51,51,55,50,48,51,54,56,53,52,55,55,53,56,48,56>>     \* 9223372036854775808
+Beyond64(v) == IF DecNeg(v) THEN MagLess(MinMag64, DecMag(v)) ELSE MagLess(MaxMag64, DecMag(v))
+WideHolds(op, arg, v) ==
+  CASE op = "eq" -> DecEq(v, arg)
+    [] op = "ge" -> ~DecLess(v, arg)
+    [] op = "gt" -> DecLess(arg, v)
+    [] op = "le" -> ~DecLess(arg, v)
+    [] op = "lt" -> DecLess(v, arg)
+\* Choice_Beyond64: a machine integer cannot tell a text beyond the 64-bit range from the bound on
+\* its side (or from another text beyond it); exactly those pairs are left open. Everything else,
+\* including a text beyond the range against any number inside it, is decided.
+SatMag(v) == IF Beyond64(v) THEN (IF DecNeg(v) THEN MinMag64 ELSE MaxMag64) ELSE DecMag(v)
+WideOpen(arg, v) == (Beyond64(arg) \/ Beyond64(v)) /\ DecNeg(arg) = DecNeg(v) /\ SatMag(arg) = SatMag(v)
+
 \* ---- the predicate of a (operator, argument) pair ----
 Holds(op, arg, v) ==
   CASE op = "streq"      -> v = arg
